@@ -281,6 +281,12 @@ func checkRestrictedJoin(
 			// Only users that have the power to invite should be chosen.
 			userID := *memberEvent.StateKey()
 
+			// ... and only our own: the authorising user's server has to sign
+			// the join event, which we can only do for a local user.
+			if parsed, parseErr := spec.NewUserID(userID, true); parseErr == nil && parsed.Domain() != localServerName {
+				continue
+			}
+
 			if slices.Contains(creators, userID) {
 				return userID, nil
 			}
